@@ -37,11 +37,16 @@ def work(tier, seed):
             continue
         for gi, kind in enumerate(b["grids"]):
             items.append({"blocks": [list(x) for x in bl], "grid": kind, "scalars": gi == 0, "mutated": gi == 0})
+    for n in (ot.LADDER_QUICK[:5] if tier == "quick" else ot.LADDER_THOROUGH[:-1]):
+        for tf in (True, False):
+            items.append({"ladder": n, "tie_free": tf, "scalars": False})
     return items
 
 
 def run(item, ctx, tier, seed):
     b = bounds(tier)
     easy = [tuple(e) for e in b["easy"]]
+    if "ladder" in item:
+        easy = [(0, 0), (3, 5)]
     clauses = set(CLAUSES)
     tc.explore(item, ctx, seed, easy, clauses)
